@@ -131,6 +131,16 @@ Proof. exact markdown_percent_spec. Qed.
 Theorem C13_rate_cobertura : forall x y, x <= y -> 0 < y ->
   exists q, cobertura_rate x y = RNum q /\ (q == NQ x / NQ y)%Q /\ (0 <= q)%Q /\ (q <= 1)%Q.
 Proof. exact cobertura_rate_spec. Qed.
+(* ActiveData-ETL: every total_covered / total_uncovered is the length of the list next to it; the file's two totals are
+   the lines with a positive count and add up to the instrumented lines *)
+Theorem C13_ade_totals : forall (rel : name) (c : cov),
+  let F := encode_ade_file rel c in
+  ap_total_covered (af_file F) = nlen (ap_covered (af_file F)) /\ ap_total_uncovered (af_file F) = nlen (ap_uncovered (af_file F)) /\
+  ap_total_covered (af_orphan F) = nlen (ap_covered (af_orphan F)) /\ ap_total_uncovered (af_orphan F) = nlen (ap_uncovered (af_orphan F)) /\
+  (forall m, m ∈ af_methods F -> ap_total_covered m.2 = nlen (ap_covered m.2) /\ ap_total_uncovered m.2 = nlen (ap_uncovered m.2)) /\
+  ap_total_covered (af_file F) = covered_lines (map_to_list (c_lines c)) /\
+  ap_total_covered (af_file F) + ap_total_uncovered (af_file F) = N.of_nat (size (c_lines c)).
+Proof. exact ade_totals_lem. Qed.
 Theorem C13_rate_activedata : forall c u, 0 < c + u ->
   exists q, ade_percent c u = RNum q /\ (q == NQ c / NQ (c + u))%Q /\ (0 <= q)%Q /\ (q <= 1)%Q.
 Proof. exact ade_percent_spec. Qed.
